@@ -1231,6 +1231,8 @@ def _canon_atom(a):
 
 def _value(n):
     """region if the term is a region, else a var identity or a shown term"""
+    if n[0] == "named" and len(n) > 3 and isinstance(n[3], (int, bool)):
+        return ("const", n[3])     # a named scalar constant is its evaluated value (`const FIRST: usize = 0; i == FIRST`)
     r = _region(n)
     if region_ok(r):
         return r
@@ -1309,6 +1311,24 @@ def _defines_anything_relevant(body, p):
     return True
 
 
+def is_assertion_guard(body, gb):
+    """the branch in block gb has a side from which the function cannot return (it panics: `assert!`, `debug_assert!`,
+    `unreachable!`): its condition does not decide between results, it is an assertion (C06 judges whether it can fail)"""
+    cache = body.__dict__.setdefault("_assert_guard", {})
+    if gb in cache:
+        return cache[gb]
+    res = False
+    if isinstance(gb, int) and 0 <= gb < len(body.blocks) and body.term(gb)["t"] == "switch":
+        rets = set(b for b in range(len(body.blocks)) if not body.is_cleanup(b) and body.term(b)["t"] == "return")
+        for s_ in set(body.succs(gb)):
+            if body.is_cleanup(s_):
+                continue
+            if not (body.reachable_from(s_) & rets):
+                res = True
+    cache[gb] = res
+    return res
+
+
 def rejections(facts, key):
     """Every way the body `key` can return an error / None:
     [{kind: 'err'|'propagate'|'none', error, callee, args(region), triggers, catoms, site, bb}]"""
@@ -1318,6 +1338,7 @@ def rejections(facts, key):
         cls = classify_return(n)
         ga = [(gb, canon_atom(a)) for gb, a in atoms_at(body, b)]
         row = {"bb": b, "site": body.site(b), "catoms": [c for _, c in ga], "gatoms": ga, "fn": key}
+        row["assert_atoms"] = set(c for gb, c in ga if is_assertion_guard(body, gb))
         k, v = cls
         if k == "err" and v[0] == "err" and v[1][0] == "call":
             # `match f(x) { Ok(v) => .., Err(e) => return Err(e) }`: the error of f(x) handed on unchanged -- what `f(x)?` does
